@@ -29,10 +29,10 @@ D = {
  "C10": "rem_core_spec (all scale cases incl. the digit loop), rem_spec / checked_rem_spec / integer shapes, tmod_is_the_remainder (uniqueness of the truncated remainder); the overflow signal is allowed exactly where the statement allows it.",
  "C11": "display_spec: for every flag/width/precision combination, every mode and profile, Display equals Spec.displaySpec (canonical text of d rounded to min(P,18) digits, zero-extended, sign from d, std padding); Formatter::pad_integral is a transcription shared by model and spec (assumed, exercised).",
  "C12": "into_float_spec (the model of f64::from / f32::from returns exactly Spec.intoFloat for every Decimal of the domain) and rne_is_nearest (that pattern is the nearest float among all bit patterns, even significand on ties); i128 as fN is assumed round-to-nearest-even.",
- "C13": "tryFromFloat theorems as listed in the evidence file (Props/C13.lean) for every f64/f32 bit pattern; where a theorem is still missing the check decides that part by correspondence over structured bit patterns (ties, boundaries, subnormals, NaN/inf).",
+ "C13": "try_from_float_spec: for EVERY bit pattern of f64/f32 and every build profile Decimal::try_from returns InfiniteValue / NotANumber for the non-finite patterns, else the exact rational value of the pattern rounded half-even to 18 fractional digits with trailing zeros removed, or InternalOverflow when that coefficient exceeds i128 (at exactly -2^127: either); try_from_float_total (never panics); heven_nearest + normalizeSpec_value + from_float_nearest (the returned Decimal is within half a unit of the 18th digit of the exact value, the even one on a tie, no trailing fractional zero); from_float_integral (integral floats convert exactly).",
  "C14": "into_int_spec for the ten integer types (Ok iff integral and in range, NotAnIntValue iff not integral whatever the range, else ValueOutOfRange), spec_meaning, from_int_spec, try_from_u128_spec.",
  "C15": "floor/ceil/trunc/fract/neg/abs_spec, value_properties (the statement's inequalities), i128_magnitude_spec (the log10 bit trick equals floor(log10) for every 128-bit value; table below 100000 by kernel evaluation), magnitude_spec (0 for every zero), predicates_spec; num-traits forwarders only exercised (feature build).",
- "C16": "Specifications of the 256-bit helpers (u128_mul_u128, u256_idiv_u64, u256_idiv_u128, i256_div_mod_floor, i128_shifted_div_mod_floor: a*b = q*m + r, 0 <= r < m, None iff the quotient exceeds i128) as listed in the evidence file; WideRound/Scale lemmas connect them to the correctly rounded results of C02-C04.",
+ "C16": "u128_mul_u128_spec, u256_idiv_u64_spec, u256_idiv_u128_special_spec (Knuth algorithm D incl. both correction loops), u256_idiv_u128_spec, i256_div_mod_floor_spec, i128_shifted_div_mod_floor_spec (x*y = q*m + r with 0 <= r < m, None iff the quotient exceeds i128), wide_mul / wide_div discharge the wide-path hypotheses of C02-C04, so mul/mul_rounded/div/checked_div/div_rounded/quantize_correct hold unconditionally; kernel ties: the translated u128_mul_u128, round_quot, i128_div_mod_floor and the two wide *_rounded wrappers equal the model.",
  "C17": "add_sub_int_eq / checked_add_sub_int_eq (integer bodies literally equal the Decimal body on Decimal::from(i)), same_expectation_* (both shapes satisfy one expectation; determined: a deterministic expectation fixes value-or-panic), same_cmp, mul_int_vs_decimal (the documented exception, both directions); reference/assign forwarders: macro definitions and invocations are part of the skeleton tie and every generated impl is called by the correspondence run.",
  "C18": "macro_fold_eq: the folding part of Dec! computes exactly Decimal::from_str on the same text (value, digit count, error kind) for every source string; the token path (lexer, TokenStream::to_string) is exercised by compiling generated Dec!(<lit>) programs with rustc and comparing with from_str.",
  "C19": "isolation: in the state-machine model (storage class and initial value read from the source) after ANY schedule thread t sees the mode it set last, else RoundHalfEven; a process-wide static would make the theorem false. thread_local! at run time is exercised by replaying schedules (exhaustive short ones + random) on real OS threads, each in a fresh process.",
